@@ -7,7 +7,8 @@ import framework as fw, ctv
 def obligations(prop, tier, seed, wd, out):
     # quick: the shapes with data-dependent control flow that bounded runs cannot decide; thorough: every shape
     if tier == 'quick':
-        only = ['while_dec', 'goto_back', 'goto_into_loop', 'call_in_loop', 'loop_bound_assigned', 'nested_loops_oneline', 'loop_detour']
+        only = ['while_dec', 'goto_back', 'goto_into_loop', 'call_in_loop', 'loop_bound_assigned', 'nested_loops_oneline', 'loop_detour',
+                'multi_goto_one_label', 'while_call_dec', 'loop_in_callee_in_loop']
     else:
         # exactly the shapes the bounded runs h_ctv leave out (data-dependent control flow): the hand-written LOOPY shapes and the loop/while members of the
         # generated family.  The other shapes are decided completely by their bounded run; simulating them as well tripled the wall time and, for
